@@ -629,6 +629,37 @@ def order_job(args):
         shutil.rmtree(wd, ignore_errors=True)
 
 
+# -C options "may be freely mixed, and are cumulative"; -f and -F are documented as -Cfr and -CFr
+CUMULATIVE = [(["-Ce", "-Cm"], ["-Cem"]), (["-Cm", "-Ce"], ["-Cem"]), (["-Cf", "-Ca"], ["-Cfa"]), (["-Ca", "-Cf"], ["-Cfa"]), (["-Cf", "-Ce"], ["-Cfe"]),
+              (["-CF", "-Ce", "-Ca"], ["-CFea"]), (["-Ce", "-Ca", "-Cm"], ["-Ceam"]), (["-Cr", "-Cem"], ["-Crem"]), (["-C", "-Ce"], ["-Ce"]), (["-Ca", "-C"], ["-Ca"]),
+              (["-f", "-Ca"], ["-Cfra"]), (["-F", "-Ca"], ["-CFra"]), (["-f", "-Ce"], ["-Cfre"]), (["-F", "-Ce"], ["-CFre"]), (["-Ca", "-f"], ["-Cafr"]),
+              (["-f"], ["-Cfr"]), (["-F"], ["-CFr"])]
+
+
+def cumulative_job(args):
+    sep, comb = args
+    flex = build.get_flex()
+    wd = H.mkscratch("c19c")
+    res = {"msgs": [], "runs": 0}
+    try:
+        open(os.path.join(wd, "o.l"), "w").write("%option noyywrap\n" + ORDER_BODY)
+        outs = []
+        for cli in (sep, comb):
+            p = subprocess.run([flex.exe] + list(cli) + ["-o", "x.c", "o.l"], cwd=wd, env=H.ENV, stdin=subprocess.DEVNULL, stdout=subprocess.PIPE, stderr=subprocess.PIPE, timeout=60)
+            res["runs"] += 1
+            pth = os.path.join(wd, "x.c")
+            outs.append((p.returncode, open(pth, "rb").read() if os.path.exists(pth) else None))
+            if os.path.exists(pth):
+                os.unlink(pth)
+        if (outs[0][0] == 0) != (outs[1][0] == 0):
+            res["msgs"].append(("cumulative-accept", "flex %s exits %s, flex %s exits %s" % (" ".join(sep), outs[0][0], " ".join(comb), outs[1][0])))
+        elif outs[0][0] == 0 and outs[0][1] != outs[1][1]:
+            res["msgs"].append(("cumulative-output", "flex %s and flex %s generate different scanners although -C options are cumulative (and -f / -F are -Cfr / -CFr)" % (" ".join(sep), " ".join(comb))))
+        return res
+    finally:
+        shutil.rmtree(wd, ignore_errors=True)
+
+
 # options whose effect is independent of the others and whose flags can be added to any probe
 NEUTRAL = ["align", "ecs", "noecs", "meta-ecs", "batch", "8bit", "noline", "nounistd", "verbose", "nowarn", "backup", "never-interactive", "always-interactive",
            "yylineno", "debug", "perf-report", "stack", "yymore", "reject"]
@@ -711,6 +742,15 @@ def run(tier):
         nord += res["runs"]
         for kind, m in res["msgs"]:
             ck.violation("C19:%s:%s+%s" % (kind, j[0], j[1]), m, case={"pair": j}, replay={"module": "vflib.checks.c19", "func": "order_job", "args": list(j)})
+    for j, res in pmap(cumulative_job, [(a, b) for a, b in CUMULATIVE], check=ck):
+        if "worker_exception" in res:
+            ck.broken.append("cumulative worker failed on %s: %s" % (j, res["worker_exception"]))
+            continue
+        nord += res["runs"]
+        for kind, m in res["msgs"]:
+            ck.violation("C19:%s:%s" % (kind, " ".join(j[0])), m, case={"separate": j[0], "combined": j[1]},
+                         replay={"module": "vflib.checks.c19", "func": "cumulative_job", "args": [list(j[0]), list(j[1])]})
+    ck.cov["cumulative_C_probes"] = len(CUMULATIVE)
     ck.cov["order_parity_runs"] = nord
     ck.cov["order_parity_pairs"] = len(opairs)
     ck.cov.update(evaluations=n1 + n2 + nord, distinct_nontrivial=len(held), options_in_table=len(T), single_option_probes=n1, pair_probes=n2,
